@@ -33,6 +33,10 @@ CLAIMS = {
           "The real simulator back-end (UserBlackboxBackend/SimulatorBackend/SimulatorCallback) runs generated tables (1-3 seeds, monotone/noisy/non-monotone elapsed time, all five delays incl. 0, sleep time, injected compute latency, failures, checkpointing on/off, with/without max_resource_attr) under every model-free scheduler; every planned and registered result is recomputed from the table: values, one seed per trial, consecutive levels from the resume point, elapsed time since resume, time stamp = start + delays + elapsed, monotone clock, waiting charged exactly once.",
           "Table contents are a deterministic function of the scenario (recomputed by the oracle); the back-end's 'time spent outside' clock is a harness-owned value bumped only by injected latency; one-column tables are not generated (BlackboxTabular lookup fails with this pandas, see DESIGN).",
           "deterministic simulation of the simulator back-end; table/time recomputation oracle"),
+  "C11": ("exploration", "5/C11",
+          "Twin executions of one seeded scenario: (a) in-process twin with numpy/python global generators reseeded and drawn from before every scheduler call and 1-3 foreign scheduler instances of random kinds constructed and driven in between (model-free schedulers); (b) the same scenarios re-run in a fresh interpreter under another PYTHONHASHSEED and global RNG state (all kinds incl. GP-based, simulator tables with fixed seed); suggestions, decisions and result tables must be identical.",
+          "Schedulers without random_seed (MOASHA) and tables with seed=None are excluded as the property says; GP-based schedulers only as fresh-process twins.",
+          "deterministic simulation: twin executions under RNG/hash/instance perturbation, digest comparison"),
   "C12": ("exploration", "5/C12",
           "Simulated runs over every StoppingCriterion field and pairs, wait/async/start-without-delay options, failures beyond max_failures, jobs exiting without report, exceptions thrown into the loop: loop ends at the first loop end where the criterion holds, no start after, bounded overshoot, nothing alive afterwards, stop_all called, results stored, counters consistent, only documented exceptions.",
           "'Left running' is judged on W-MEM/W-LOCAL worker ground truth; for exceptions injected between start_trial and the status update the started-counter may lag by that one trial.",
@@ -45,6 +49,14 @@ CLAIMS = {
           "After every scheduler call in simulated runs of stopping/promotion/synchronous Hyperband with GP, HyperTune and DyHPO searchers (all data policies, myopic pending, no-checkpoint re-reports, failures) the surrogate data set (searcher.state_transformer.state) is compared with what was delivered: one observation per level with the mapped value, levels by policy, pending entries only of live trials at unobserved levels, clean-up at every trial end without collateral loss.",
           "Reads the documented attribute state_transformer.state (for DyHPO through the wrapped internal searcher); GP budgets tiny; level-presence rule not applied to synchronous Hyperband and DyHPO.",
           "deterministic simulation: state invariant after every event"),
+  "C15": ("exploration", "5/C15",
+          "Paired simulated runs with identical seeds and schedules: mode min on table f and mode max on -f (MOASHA: every metric flipped) for all model-free schedulers; suggestions, decisions, promotions, clone sources and the reported best configuration are compared event by event; a first divergence is only excused when some rung threshold (numpy.quantile) lies within round-off of a metric value in the history so far.",
+          "The tie excuse is deliberately coarse (any rung, any prefix) to rule out false alarms; tables are in general position; stop criteria with metric thresholds are not used in pairs.",
+          "deterministic simulation: paired executions, event-by-event comparison"),
+  "C16": ("fault_enumeration", "5/C16",
+          "Crash-restart of the scheduler/searcher at EVERY call boundary of each sampled history (H <= 120 exhaustively, longer histories: first 40 + 40 sampled): dill round trip of the scheduler (thorough: of the whole tuner), and get_state/clone_from_state for random, grid and GP searchers; the continuation must equal the uninterrupted twin (GP state route: restored data set equal, no duplicate suggestion, restore does not raise).",
+          "For the GP clone_from_state route bit-identical model-based suggestions are not demanded (a re-created searcher re-fits its surrogate and bounded fits are not idempotent); scenarios with the early-checkpoint-removal callback (which keeps its own scheduler reference) are excluded; non-public attribute _searcher is assigned on the state route.",
+          "deterministic simulation: enumerated crash-restart points, continuation compared with uninterrupted twin"),
   "C17": ("exploration", "5/C17",
           "For every simulated run (extra string/NaN/int metrics, resumed trials with changed configs, every results_update_interval, injected exceptions) the results table, its CSV read-back, Tuner.best_config, load_experiment().best_config and the running statistics are recomputed from what the back-end handed to the loop.",
           "When run() ended by exception the batch that was being processed counts as in flight (accepted as counted or not).",
